@@ -20,7 +20,7 @@ c05 = hdr + ex("C05_dangling_else", "void f(){ if (a) if (b) x; else y; }", "the
  + ex("C05_switch_regroup", "void f(){ switch(x){ case 1: a; b; case 2: case 3: c; default: d; } }", "statements go under the nearest preceding label; consecutive labels stay siblings") \
  + ex("C05_for_decl", "void f(){ for(int i=0;i<3;i++) x; }", "a declaration init lands in a DeclList") \
  + ex("C05_pragma_once", "void f(){\n#pragma p1\n x;\n if (a)\n#pragma p2\n y;\n}", "each pragma once, verbatim, in place; a pragma-prefixed sub-statement is wrapped in a Compound") \
- + ex("C05_static_assert_stmt_refuted", "void f(){ if (x) _Static_assert(1,\"a\"); }", "witness: a static assertion as a sub-statement puts a list into a statement slot")
+ + ex("C05_static_assert_stmt", "void f(){ if (x) _Static_assert(1,\"a\"); }", "a static assertion as a sub-statement is one node, like any statement (was a Python list before the fix: commit)")
 open('/verif/coq/proofs/StmtExamples.v','w').write(c05)
 c03 = hdr + ex("C03_inside_out", "int *(*fp[3])(char, int *);", "array of pointers to functions returning pointer to int: derivations from the identifier outward") \
  + ex("C03_shared_specifiers", "static const int a, *b, c[2];", "specifiers shared by several declarators apply to each") \
